@@ -166,8 +166,9 @@ theorem pyTypeIs_dstr_str (n : Dec) : pyTypeIs (dstr n) "str" = true := rfl
 
 /-- `map(nucleotides.index, dna_sequence)` is `nucValues`. -/
 theorem mapM_index (s : List Char) :
-    mapM' (fun x => pyStrIndex (.str ['A', 'C', 'G', 'T']) x) (s.map fun c => PV.str [c]) =
+    mapM' (fun x => pyIndexOf (.str ['A', 'C', 'G', 'T']) x) (s.map fun c => PV.str [c]) =
       (nucValues s).map fun vs => vs.map fun (n : Nat) => PV.int (n : Int) := by
+  show mapM' (fun x => pyStrIndex (.str ['A', 'C', 'G', 'T']) x) (s.map fun c => PV.str [c]) = _
   induction s with
   | nil => rfl
   | cons c s ih =>
@@ -405,5 +406,6 @@ theorem tie_number_to_dna_other (v L : PV) (fuel : Nat) (h1 : ∀ s, v ≠ .str 
   | bool b => simp [Gen.number_to_dna, Gen.number_to_dna.body, pyTypeIs]
   | none => simp [Gen.number_to_dna, Gen.number_to_dna.body, pyTypeIs]
   | unbound => exact absurd rfl h3
+  | arr l => simp [Gen.number_to_dna, Gen.number_to_dna.body, pyTypeIs]
 
 end Dsw.Tie
